@@ -38,3 +38,23 @@ Example C17_nonvacuous :
   set_merge f None cf (AName NDiameter) (Some 0.1%float) None None <> None /\
   ctor f None 0.65 50 (AName NDiameter) (Some 0.1%float) <> None.
 Proof. cbn. repeat split; discriminate. Qed.
+
+(* ---- the configuration logic is the one in the source ----
+   Gen/GConfig.v is extracted from BitBirch.__init__, BitBirch.set_merge, the `tolerance` getter and the two
+   property setters of bblean/bitbirch.py on every run (decision tree over: global merge function set,
+   tolerance given, criterion None / str / merge-function object, current criterion has a tolerance;
+   leaves: ValueError, get_merge_accept_fn, in-place tolerance change, threshold / branching-factor update;
+   a raise after a partial update fails the translation); Proofs/GenTieConfig.v re-proves equality with the
+   model of Model/Config.v *)
+From BB Require Import Gen.GConfig Proofs.GenTieConfig.
+Theorem C17_source_tie_ctor : forall fexp g thr bf a tol,
+  GConfig.ctor fexp g thr bf a tol = Config.ctor fexp g thr bf a tol.
+Proof. exact tie_ctor. Qed.
+Theorem C17_source_tie_set_merge : forall fexp g cf a tol thr bf,
+  GConfig.set_merge fexp g cf a tol thr bf = Config.set_merge fexp g cf a tol thr bf.
+Proof. exact tie_set_merge. Qed.
+Theorem C17_source_tie_setters : forall fexp g cf,
+  (forall n, GConfig.set_criterion_prop fexp g cf n = Config.set_criterion_prop fexp g cf n) /\
+  (forall t, GConfig.set_tolerance_prop fexp g cf t = Config.set_tolerance_prop fexp g cf t) /\
+  GConfig.get_tolerance cf = Config.get_tolerance cf.
+Proof. intros fexp g cf. split; [|split]; [exact (tie_set_criterion_prop fexp g cf) | exact (tie_set_tolerance_prop fexp g cf) | exact (tie_get_tolerance cf)]. Qed.
